@@ -65,3 +65,62 @@ Definition fuse_secvoid (xd : input) (bp : Z) (xa : input) (bp' : Z) : input :=
   let x := fuse xd bp xa bp' in
   mkInput (in_tx x) (in_coding x) (in_orf x) (in_start_nf x) (in_end_nf x)
           (filter (fun p => p + 3 <? bp) (in_sec xd)) (in_vars x) (in_rule x) (in_exc x) (in_lim x) (in_pool x).
+
+(* ------------------------------------------------------------------ general breakpoints (round 3) *)
+(* A breakpoint inside an intron keeps the intronic piece next to it: the fused backbone is
+     donor[:bp] ++ mid ++ acceptor[bp':]
+   where bp = donor bases up to the end of the exon upstream of the donor breakpoint, mid = the donor-gene
+   bases from there to the donor breakpoint followed by the acceptor-gene bases from the acceptor breakpoint to
+   the next acceptor exon, bp' = first base of that exon (both pieces empty for exonic breakpoints).
+   mvars = the small records lying in the retained pieces, in coordinates of mid; v_ok v = the record lies
+   STRICTLY inside its piece (obliged side), otherwise it merely touches an end of the piece (permitted side).
+   Records straddling an end of a piece are not passed at all: no haplotype of the fusion carries them. *)
+Definition fuse_gen (xd : input) (bp : Z) (mid : seq) (mvars : list variant) (xa : input) (bp' : Z) : input :=
+  mkInput (firstn (Z.to_nat bp) (in_tx xd) ++ mid ++ skipn (Z.to_nat bp') (in_tx xa))
+          (in_coding xd && (in_orf xd + 3 <=? bp))
+          (in_orf xd) (in_start_nf xd) (in_end_nf xa)
+          (filter (fun p => p + 3 <=? bp) (in_sec xd))
+          (filter (fun v => v_e v <=? bp) (in_vars xd) ++
+           map (move bp) mvars ++
+           map (move (bp + zlen mid - bp')) (filter (fun v => bp' <=? v_s v) (in_vars xa)))
+          (in_rule xd) (in_exc xd) (in_lim xd) (in_pool xd).
+
+(* permitted products of one haplotype with the open last peptide admitted or not *)
+Definition may_products_t (x : input) (tail : bool) (h : list variant) : list seq :=
+  let hs := apply_hap (in_tx x) h in
+  flat_map (fun st =>
+    flat_map (fun secs => products x false tail (translate_from hs st secs)) (may_secs x h))
+    (may_starts x h hs).
+
+(* the 3' end of a fusion transcript is the acceptor's: when the acceptor is mRNA_end_NF a translation that
+   runs off the end has no defined last peptide (the tool clips it), otherwise the open tail is permitted *)
+Definition fusion_tail (x : input) : bool := negb (in_end_nf x).
+
+Definition fusion_set_t (x : input) : list seq :=
+  may_products_t x (fusion_tail x) [] ++
+  flat_map (may_products_t x (fusion_tail x)) (haplotypes false (in_vars x)).
+
+Definition realizable_fusion_g (xd : input) (bp : Z) (mid : seq) (mvars : list variant) (xa : input) (bp' : Z)
+  (p : seq) : bool :=
+  mem_seq p (fusion_set_t (fuse_gen xd bp mid mvars xa bp')).
+
+(* obliged side *)
+Definition fuse_gen_strict (xd : input) (bp : Z) (mid : seq) (mvars : list variant) (xa : input) (bp' : Z) : input :=
+  mkInput (firstn (Z.to_nat bp) (in_tx xd) ++ mid ++ skipn (Z.to_nat bp') (in_tx xa))
+          (in_coding xd && (in_orf xd + 3 <=? bp))
+          (in_orf xd) (in_start_nf xd) (in_end_nf xa)
+          (filter (fun p => p + 3 <? bp) (in_sec xd))
+          (filter (fun v => v_e v <? bp) (in_vars xd) ++
+           map (move bp) (filter v_ok mvars) ++
+           map (move (bp + zlen mid - bp')) (filter (fun v => bp' <? v_s v) (in_vars xa)))
+          (in_rule xd) (in_exc xd) (in_lim xd) (in_pool xd).
+
+Definition must_fusion_set_g (xd : input) (bp : Z) (mid : seq) (mvars : list variant) (xa : input) (bp' : Z)
+  : list seq :=
+  let x := fuse_gen_strict xd bp mid mvars xa bp' in
+  if in_coding xd && negb (in_coding x) then []
+  else if existsb (fun p => (p - 3 <? bp) && (bp <=? p + 6)) (in_sec xd) then []
+  else
+  filter (fun p => negb (mem_seq p (ref_products xd)) && negb (mem_seq p (in_pool xd)))
+         (must_products_upto x bp [] ++
+          flat_map (must_products_upto x bp) (filter (one_partner bp) (must_haps x))).
